@@ -12,6 +12,22 @@ CHECKS = {
   "Generated LZMA2 chunk sequences (all reset classes, inherited state, property changes, size extremes, liblzma-written streams) decoded through three entry points and compared with interpret(); every stream is also decoded by liblzma; Chunk hooks report classes and transitions parsed.",
   "Trusted: reference LZMA2 writer (cross-decoded by liblzma per case).",
   TECH + ": reference-model differential oracle + chunk hook coverage"),
+ "C03": ("exploration", "§4 C03",
+  "Generated .xz files (0-300 blocks, three check types, all size-field combinations, header padding to 1024 bytes, 1-4 byte integers, thorough: a 256 MiB block) and liblzma-written files decoded under every reader kind and compared with the block plaintexts; liblzma decodes each generated file too.",
+  "Trusted: reference XZ writer (cross-decoded by liblzma per case). 6-9 byte integers are unreachable in valid files.",
+  TECH + ": reference-model differential oracle over generated containers"),
+ "C06": ("fault_enumeration", "§4 C06",
+  "Per valid base file: every integrity/size field replaced by boundary values and every single-bit variation with enclosing CRCs recomputed (must be Err), every single-bit flip of the file (never Ok with different output under CRC32/CRC64; Err outside the LZMA2 payload), every truncation (Err); in overflow-checked and release arithmetic. Exhaustive per base file, base files sampled.",
+  "Expected verdicts by construction; strict XZ parser (self-checked against liblzma) confirms every field mutant is invalid.",
+  TECH + ": exhaustive per-input fault enumeration with CRC-repairing mutators"),
+ "C17": ("fault_enumeration", "§4 C17",
+  "Per valid LZMA2 base stream: each framing field at every chunk position set to boundary-violating values, every truncation point; mutants confirmed invalid by the reference reader; three entry points.",
+  "Expected Err by construction. Under-consumption leniencies of lzma-rs are counted, not judged (not in the statement's list).",
+  TECH + ": per-input framing-fault enumeration"),
+ "C18": ("exploration", "§4 C18",
+  "Well-formed files using each unsupported feature (16 check IDs, delta/BCJ chains written by liblzma, unknown filter IDs, every reserved bit, concatenated streams, stream padding) must be refused; liblzma confirms the files are well-formed.",
+  "Zero-block SHA-256 file: either verdict accepted (nothing to verify).",
+  TECH + ": negative oracle over enumerated feature families"),
  "C08": ("exploration", "§4 C08",
   "Table-driven: option x header-field x provided-size x stream-shape cells, each decided by the reference decoder run with the size in effect, executed through the one-shot API and through Stream; header byte consumption observed on the reader.",
   "Trusted: reference decoder. The documented clean-EOF leniency is accepted either way.",
